@@ -239,7 +239,7 @@ func raceBT(seed int64) {
 						w.SampleRowKeys(tbl)
 					case 8:
 						w.GetTable(tbl)
-						w.ListTables(parent)
+						w.ListTablesView(parent, []btapb.Table_View{btapb.Table_VIEW_UNSPECIFIED, btapb.Table_SCHEMA_VIEW, btapb.Table_FULL}[lr.Intn(3)])
 					case 9:
 						id := "f3"
 						mod := &btapb.ModifyColumnFamiliesRequest_Modification{Id: id, Mod: &btapb.ModifyColumnFamiliesRequest_Modification_Create{Create: &btapb.ColumnFamily{GcRule: rule}}}
@@ -392,12 +392,19 @@ func raceGCS(seed int64) {
 	}
 	nG := 4 + rng.Intn(4)
 	var wg sync.WaitGroup
+	// every goroutine starts by creating the same, not yet existing bucket and uploading into it:
+	// whatever the creations' order, an upload that was answered 200 is still there at the end
+	var fresh [8]int32
 	for g := 0; g < nG; g++ {
 		lr := rand.New(rand.NewSource(seed*37 + int64(g)))
 		g := g
 		wg.Add(1)
 		go func() {
 			defer wg.Done()
+			do("POST", "/storage/v1/b", url.Values{"project": {"p"}}, map[string]string{"Content-Type": "application/json"}, []byte(`{"name":"fresh"}`))
+			if rec := do("POST", "/upload/storage/v1/b/fresh/o", url.Values{"uploadType": {"media"}, "name": {fmt.Sprintf("n%d", g)}}, map[string]string{"Content-Type": "text/plain"}, []byte("kept")); rec.Code == 200 {
+				atomic.StoreInt32(&fresh[g], 1)
+			}
 			for i := 0; i < 20; i++ {
 				name := fmt.Sprintf("o%d", lr.Intn(6))
 				switch lr.Intn(16) {
@@ -454,6 +461,13 @@ func raceGCS(seed int64) {
 		}()
 	}
 	wg.Wait()
+	for g := 0; g < nG; g++ {
+		if atomic.LoadInt32(&fresh[g]) == 1 {
+			if rec := do("GET", fmt.Sprintf("/storage/v1/b/fresh/o/n%d", g), url.Values{"alt": {"media"}}, nil, nil); rec.Code != 200 || rec.Body.String() != "kept" {
+				raceFail("object fresh/n%d was uploaded (HTTP 200) into a bucket several requests were creating at once; afterwards GET gives HTTP %d %q", g, rec.Code, rec.Body.String())
+			}
+		}
+	}
 }
 
 // ---- driver side ------------------------------------------------------------------------------
@@ -630,6 +644,12 @@ func raceSupplement(prop, tier string, master uint64, known []KnownFinding) race
 		sig, _ := raceSignature(r.out)
 		if sig == "" {
 			ro.infra = append(ro.infra, fmt.Sprintf("race supplement: child with seed %d failed without a race report:\n%s", r.seed, firstLines(lastN(r.out, 3000), 40)))
+			continue
+		}
+		if strings.HasPrefix(sig, "data-race: ") && strings.TrimSpace(strings.TrimPrefix(sig, "data-race:")) == "" {
+			// both accesses are in the harness itself: a defect of the machinery, not of the repository
+			_, rep := raceSignature(r.out)
+			ro.infra = append(ro.infra, fmt.Sprintf("race supplement: data race inside the harness (no repository frame), seed %d:\n%s", r.seed, firstLines(rep, 40)))
 			continue
 		}
 		if _, ok := sigs[sig]; !ok {
